@@ -340,3 +340,18 @@ package proxy
 //@   loop 2 invariant p != nil && p.connections != nil && p.cfg != nil && tableTyped() && table == activeTbl() && wfTable(table) && targetsOK(table)
 //@   loop 2 invariant forall k string :: visited(k) && hasKey(p.connections, k) ==> keyInTable(k, table) && connState(p.connections[k]) != 4
 //@   at "p.lock.Unlock()" assert forall k string :: hasKey(p.connections, k) ==> keyInTable(k, table) && connState(p.connections[k]) != 4
+//@
+//@ // the recording writer forwards what the handler sends and nothing else: every method is under contract
+//@ shared complete responseWriter props C07
+//@
+//@ func (*responseWriter).Flush
+//@   props C07
+//@   requires rw != nil
+//@   assigns nothing
+//@   ensures lastStatus == old(lastStatus) && statusWrites == old(statusWrites)
+//@
+//@ func (*responseWriter).Hijack
+//@   props C07
+//@   requires rw != nil
+//@   assigns nothing
+//@   ensures lastStatus == old(lastStatus) && statusWrites == old(statusWrites)
